@@ -16,6 +16,8 @@ Decided:
   C06.start   every new_seekable takes its seek base from stream_position() right after the metadata was read
   C06.skip    the forward skip loops of the three readers take min(buffered amount, distance) in the reader's unit,
               consume exactly that (x channels for interleaved samples) and advance the position by it
+  C06.offs    FrameIterator pairs every frame with the byte position sampled before the frame was read (what
+              generate_seektable turns into seek points)
   C06.end     beyond-end and before-start requests have live error exits; the byte reader returns the requested position
   C06.cast    narrowing `as` casts in decode.rs are shown lossless or audited (castlib)
 Not decided: exact landing under arbitrary histories (value-level).
@@ -49,9 +51,79 @@ def bytes_per_frame_shape(F, b, o):
     return True, ""
 
 
+def frame_offset_rules(F, rep, P):
+    """FrameIterator yields (frame, byte position of that frame's first byte): the position is the counter's value taken
+    before the frame is read (generate_seektable turns these into SEEKTABLE byte offsets)"""
+    R = P + ".offs"
+    b = _get(F, rep, R, "<stream::FrameIterator<R> as std::iter::Iterator>::next")
+    if b is None:
+        return
+    reads = call_blocks(b, r"stream::Frame::read$")
+    n = 0
+
+    def sampled_at(l):
+        """block of `b` where local l was copied from the counter, following whole-local copies"""
+        for _ in range(6):
+            ds = b.defs().get(l, [])
+            if len(ds) != 1 or ds[0][1] == "T" or ds[0][2]["rv"]["r"] != "use" or op_place(ds[0][2]["rv"]["o"]) is None:
+                return None
+            src = op_place(ds[0][2]["rv"]["o"])
+            if place_fields(src)[-1:] == ["count"]:
+                return ds[0][0]
+            if src["p"]:
+                return None
+            l = src["l"]
+        return None
+    for c in [b] + F.closures_of(b):
+        host = None
+        if c is not b:
+            hs = [hi for hi, h in b.calls() if c.path in [getattr(F.body(x), "path", None) for x in (h.get("cls") or ())]]
+            if len(hs) != 1:
+                continue
+            host = hs[0]
+        for bi, bl in enumerate(c.blocks):
+            for st_ in bl["s"]:
+                rv = st_["rv"]
+                if rv["r"] != "agg" or rv.get("ak") != "tuple" or len(rv["ops"]) != 2 or op_place(rv["ops"][1]) is None:
+                    continue
+                if "Frame" not in c.local_ty(st_["d"]["l"]) or "u64" not in c.local_ty(st_["d"]["l"]):
+                    continue
+                n += 1
+                pos = op_place(rv["ops"][1])
+                if c is b:
+                    taken = sampled_at(pos["l"]) if not pos["p"] else None
+                    if taken is None and place_fields(pos)[-1:] == ["count"]:
+                        taken = bi      # read from the counter right where the pair is built, i.e. after the frame was read
+                    pair_at = bi
+                else:
+                    # the local of `b` that the closure captured (by value or by reference)
+                    taken = None
+                    rp = root_place(c, rv["ops"][1])
+                    ks = [e for e in (rp["p"] if rp and rp["l"] == 1 else []) if re.match(r"^\.\d+:", e)]
+                    if ks:
+                        k = int(ks[0][1:].split(":", 1)[0])
+                        for bl2 in b.blocks:
+                            for s2 in bl2["s"]:
+                                r2 = s2["rv"]
+                                if r2["r"] == "agg" and r2.get("ak") == "closure" and r2.get("adt") == c.path and k < len(r2["ops"]) and op_place(r2["ops"][k]) is not None:
+                                    q = op_place(r2["ops"][k])
+                                    ds = b.defs().get(q["l"], [])
+                                    if not q["p"] and len(ds) == 1 and ds[0][1] != "T" and ds[0][2]["rv"]["r"] == "ref" and not ds[0][2]["rv"]["p"]["p"]:
+                                        q = ds[0][2]["rv"]["p"]
+                                    if not q["p"]:
+                                        taken = sampled_at(q["l"])
+                    pair_at = host
+                before = taken is not None and any((taken == ri or b.dominates(taken, ri)) and (b.dominates(ri, pair_at) or ri == pair_at) and not (taken == pair_at and c is b and taken != ri) for ri, _ in reads)
+                rep.check(R, "FrameIterator pairs each frame with the byte count taken before the frame was read", before, c.loc(st_["sp"]), "",
+                          "the position yielded with a frame is not the counter value sampled before Frame::read: seek tables generated from it point at the following frame")
+    rep.floor(R, "(frame, position) pairs yielded", n, 2)
+    rep.check(R, "every frame read by the iterator has its position sampled", len(reads) >= 1, loc_of(b))
+
+
 def run(ctx, rep):
     F = ctx.facts()
     ok = OkImplies(F, ctx.cg())
+    frame_offset_rules(F, rep, "C06")
     # ---- C06.units -----------------------------------------------------------------------------------
     sb = _get(F, rep, "C06.units", "<decode::FlacByteReader<R, E> as std::io::Seek>::seek")
     if sb is not None:
